@@ -113,7 +113,7 @@ def main(prop, tier, seed, replay_path=None):
             if not (nxt and nxt[0] == k[0] and nxt[1] == k[1] and nxt[2].startswith(k[2])):
                 leaves.append(hs[k])
         nedges = len(hs)
-        cap = 40000 if quick else 90000        # bound the real-thread replay: a seeded sample of the maximal schedules
+        cap = 40000 if quick else 70000        # bound the real-thread replay: a seeded sample of the maximal schedules
         if len(leaves) > cap:
             leaves = rng.sample(leaves, cap)
         jobs = [(i + 1, s, x, h) for i, (s, x, h) in enumerate(leaves)]
